@@ -53,6 +53,11 @@ def units(tier, seed):
     from ..scale import big_population_worlds, long_local_search_worlds, many_evaluation_worlds
 
     descs += [dict(d, gsc=d.get("gsc", gs[i % len(gs)])) for i, d in enumerate(many_evaluation_worlds(tier, seed) + long_local_search_worlds(tier, seed) + big_population_worlds(tier, seed)[:4])]
+    # the SAME seeded configuration run a second time in one process (fresh objects throughout): whatever the first run left behind in the
+    # library (class-level memo tables keyed by deme id or genome ...) must not answer for the objective
+    for k, eng in enumerate([("SEA", "LOC"), ("LHS", "DE", "LOC"), ("DE", "CMAf"), ("SHADE", "SEA"), ("SOB", "LOC")]):
+        w0 = dict(engines=list(eng), gens=1, gsc=gs[k % len(gs)], Mh=3, seed=s + k, obj=("twofunnel", "sphere_in")[k % 2], maximize=bool(k % 2), sprout={"kind": "simple", "L": 2}, loc_maxiter=20)
+        descs.append(dict(w0, prelude=[dict(w0, choices="")]))
     us = [{"kind": "run", "descs": c} for c in chunks(descs, 12)]
     us.append({"kind": "minimize-both", "seed": s})
     us.append({"kind": "minimize-long", "seed": s})
